@@ -8,10 +8,10 @@ import (
 	"os"
 
 	_ "perun.network/go-perun/backend/sim"
-	"verif/harness/internal/cv"
-	"verif/harness/internal/hx"
 	"verif/harness/internal/c03"
 	"verif/harness/internal/c04"
+	"verif/harness/internal/cv"
+	"verif/harness/internal/hx"
 	"verif/harness/internal/settle"
 	"verif/harness/internal/strictledger"
 )
